@@ -13,6 +13,8 @@ limitations under the License.
 
 package fifo
 
+import "github.com/dapr/kit/verifhook"
+
 // Map is a map of mutexes whose locks are acquired in a FIFO order. The map is
 // pruned automatically when all locks have been released for a key.
 type Map[T comparable] interface {
@@ -47,6 +49,7 @@ func (a *fifoMap[T]) Lock(key T) {
 	m.ilen++
 	a.lock.Unlock()
 
+	verifhook.Point("fifo.map.beforeMutex", key, "Lock")
 	m.mutex.Lock()
 }
 
@@ -58,5 +61,6 @@ func (a *fifoMap[T]) Unlock(key T) {
 		delete(a.items, key)
 	}
 	a.lock.Unlock()
+	verifhook.Point("fifo.map.beforeMutex", key, "Unlock")
 	m.mutex.Unlock()
 }
